@@ -21,6 +21,7 @@ from __future__ import annotations
 
 import uuid
 from abc import ABC, abstractmethod
+from copy import deepcopy
 from typing import TYPE_CHECKING
 
 import numpy as np
@@ -230,9 +231,9 @@ class Entity(ABC):
     def metadata(self, value: dict | None):
         if isinstance(value, dict):
             if isinstance(self.metadata, dict):
-                self._metadata.update(value)  # type: ignore
+                self._metadata.update(deepcopy(value))  # type: ignore
             else:
-                self._metadata = value
+                self._metadata = deepcopy(value)
         elif value is None:  # remove the metadata
             self._metadata = None
         else:
